@@ -110,8 +110,9 @@ struct WebSocketFrame
       frame.maskKey[3] = data[pos++];
     }
 
-    // Payload
-    if (data.size() < pos + payloadLen)
+    // Payload. pos <= data.size() here; compare by subtraction so that a declared
+    // length near 2^64 cannot wrap 'pos + payloadLen' around and reach resize().
+    if (payloadLen > data.size() - pos)
     {
       return std::nullopt; // incomplete
     }
